@@ -106,14 +106,21 @@ pub fn gen_cfg(rng: &mut Rng, p: &Profile) -> Cfg {
         let n = if rng.chance(50) { 0 } else { 1 + rng.below(p.max_hooks.max(1)) };
         (0..n.min(p.max_hooks)).map(|_| rng.chance(50)).collect()
     };
-    Cfg {
+    let mut c = Cfg {
         max: if rng.chance(8) { 0 } else { 1 + rng.below(p.max_size) },
         lifo: rng.chance(40),
         pre: hooks(rng),
         postr: hooks(rng),
         postc: hooks(rng),
         rt: rng.chance(p.p_rt),
+        pt: [Tmo::None; 3],
+    };
+    // pool-level timeouts (they need a runtime, or `build()` fails - that is the build table's
+    // business); `Pool::get()` uses them
+    if c.rt && p.p_timeouts > 0 && rng.chance(30) {
+        c.pt = [gen_tmo(rng), gen_tmo(rng), gen_tmo(rng)];
     }
+    c
 }
 
 fn gen_tmo(rng: &mut Rng) -> Tmo {
@@ -139,7 +146,10 @@ fn gen_spec(rng: &mut Rng, p: &Profile, w: &World) -> Option<Spec> {
     }
     Some(match rng.weighted(&wts) {
         0 => {
-            if rng.chance(p.p_timeouts) {
+            if rng.chance(if w.cfg.pt != [Tmo::None; 3] { 45 } else { 10 }) {
+                // `Pool::get()`: the pool-level timeouts
+                Spec::GetDefault
+            } else if rng.chance(p.p_timeouts) {
                 Spec::Get(gen_tmo(rng), gen_tmo(rng), gen_tmo(rng))
             } else if rng.chance(30) {
                 Spec::Get(Tmo::Zero, Tmo::None, Tmo::None)
@@ -503,6 +513,7 @@ pub fn gen_table(k: u64) -> TraceOut {
         postr: vec![],
         postc: vec![],
         rt,
+        pt: [Tmo::None; 3],
     };
     let mut t = TraceOut {
         lines: vec![cfg.line(), format!("# table scenario={} variant={}", scenario, v)],
@@ -872,6 +883,7 @@ fn run_schedule(ops: &[ScOp], variant: usize, path: &[usize], budget: usize, res
         postr: if variant == 2 { vec![true] } else { vec![] },
         postc: vec![],
         rt: true,
+        pt: [Tmo::None; 3],
     };
     let mut t = TraceOut { lines: vec![cfg.line()], error: None };
     let mut w = World::new(cfg);
